@@ -122,6 +122,27 @@ def orbitIn (fuel : Nat) (ps : Pairs) (seg : Nat → Nat → V6) (a b : Nat) : R
     | .ok x0 => reframe fuel ps seg c b x0
     | e => e
 
+/-- physical constants of a body as `Pck.__getitem__` builds them from the PCK text files
+(all zero when no PCK file is configured) -/
+structure BodyConst where
+  radius : R
+  flattening : R
+  mass : R
+
+/-- what `create_frames` leaves behind: the links/providers (determined by the pairs) and, on every
+`JplCenter`, the `body` built from the PCK files -/
+structure Frames where
+  pairs : Pairs
+  body : Nat → BodyConst
+
+def createFrames (ps : Pairs) (pck : Nat → BodyConst) : Frames := ⟨ps, pck⟩
+
+def Frames.orbitIn (F : Frames) (fuel : Nat) (seg : Nat → Nat → V6) (a b : Nat) : Res :=
+  Jpl.orbitIn fuel F.pairs seg a b
+
+def Frames.offsetIn (F : Frames) (fuel : Nat) (seg : Nat → Nat → V6) (a b : Nat) : Res :=
+  Jpl.offsetIn fuel F.pairs seg a b
+
 end Jpl
 
 end BeyondVerif.F
